@@ -20,9 +20,9 @@ from vlib import Ctx, bag, log, plain
 
 ID = "C01"
 LEVEL = "proof"
-MODULES = ["SqlframeModel.Codec.C01", "SqlframeModel.Props.C01"]
-GEN = ["Operations", "Methods", "Clauses"]
-SOURCES = ["SqlframeModel/Props/C01.lean", "SqlframeModel/Lemmas/C01.lean", "SqlframeModel/Lemmas/C01Wrap.lean", "SqlframeModel/Lemmas/C01Steps.lean", "SqlframeModel/Lemmas/C01Dropna.lean", "SqlframeModel/Lemmas/Sorted.lean", "SqlframeModel/Lemmas/C01ExprKey.lean", "SqlframeModel/Impl/C01ExprKey.lean", "SqlframeModel/Impl/DataFrame.lean", "SqlframeModel/Impl/C01Scope.lean"]
+MODULES = ["SqlframeModel.Codec.C01", "SqlframeModel.Impl.C01Memo", "SqlframeModel.Props.C01"]
+GEN = ["Operations", "Methods", "Clauses", "C01Bodies"]
+SOURCES = ["SqlframeModel/Impl/C01Bodies.lean", "SqlframeModel/Impl/C01Memo.lean", "SqlframeModel/Lemmas/C01Bodies.lean", "SqlframeModel/Lemmas/C01Memo.lean", "SqlframeModel/Lemmas/C01Narrow.lean", "SqlframeModel/Props/C01.lean", "SqlframeModel/Lemmas/C01.lean", "SqlframeModel/Lemmas/C01Wrap.lean", "SqlframeModel/Lemmas/C01Steps.lean", "SqlframeModel/Lemmas/C01Dropna.lean", "SqlframeModel/Lemmas/Sorted.lean", "SqlframeModel/Lemmas/C01ExprKey.lean", "SqlframeModel/Impl/C01ExprKey.lean", "SqlframeModel/Impl/DataFrame.lean", "SqlframeModel/Impl/C01Scope.lean"]
 
 KINDS = ["where", "select", "withColumn", "withColumnRenamed", "drop", "distinct", "orderBy", "limit", "fillna", "replace", "toDF", "dropna", "unpivot"]
 NEW_NAMES = ["u", "v", "w", "p", "q"]
@@ -51,6 +51,9 @@ def gen_step(rng: random.Random, kind: str, schema: t.Dict[str, str], st: t.Dict
             items = [[c, rew if c == f else ("col", c)] for c in cols]
             if rng.random() < 0.3 and len(items) > 1:
                 rng.shuffle(items)
+                order = [(n, schema[n]) for n, _ in items]  # later positional steps (toDF) must see the new column order
+                schema.clear()
+                schema.update(order)
             st["total"] = False
             return {"k": "select", "items": items}
         if kind == "withColumn":
@@ -72,7 +75,8 @@ def gen_step(rng: random.Random, kind: str, schema: t.Dict[str, str], st: t.Dict
             others = [c for c in cols if c != f]
             if not others:
                 return None
-            c = rng.choice(others)
+            nd = [c for c in st.get("nd", []) if c in others]
+            c = rng.choice(nd) if nd and rng.random() < 0.75 else rng.choice(others)
             del schema[c]
             st["total"] = False
             return {"k": "drop", "ns": [c]}
@@ -115,6 +119,10 @@ def gen_step(rng: random.Random, kind: str, schema: t.Dict[str, str], st: t.Dict
             return {"k": "unpivot", "ids": ids, "vals": [f], "var": "var", "val": "val"}
     if kind == "where":
         st["total"] = False
+        ints = [c for c in cols if schema[c] == "int"]
+        if st.get("keep_rows") and ints and rng.random() < 0.6:
+            # a filter that lets most rows through: the block gets its WHERE clause and the rows stay to tell what else happened
+            return {"k": "where", "p": ("bin", "or", g.bool_expr(1), ("bin", "ge", ("col", rng.choice(ints)), ("lit", rng.choice([-1, 0]))))}
         return {"k": "where", "p": g.bool_expr(2)}
     if kind == "select":
         n = rng.randint(1, 3)
@@ -158,7 +166,9 @@ def gen_step(rng: random.Random, kind: str, schema: t.Dict[str, str], st: t.Dict
     if kind == "drop":
         if len(cols) < 2:
             return None
-        c = rng.choice(cols)
+        # prefer a column in which two rows of the table differ while agreeing everywhere else: dropping it makes them equal
+        nd = [c for c in st.get("nd", []) if c in cols]
+        c = rng.choice(nd) if nd and rng.random() < 0.75 else rng.choice(cols)
         del schema[c]
         st["total"] = False
         return {"k": "drop", "ns": [c]}
@@ -166,7 +176,7 @@ def gen_step(rng: random.Random, kind: str, schema: t.Dict[str, str], st: t.Dict
         st["total"] = False
         return {"k": "distinct"}
     if kind == "orderBy":
-        total = more_limits or rng.random() < 0.7
+        total = more_limits or rng.random() < (0.3 if st.get("keep_rows") else 0.7)
         ks = cols[:]
         rng.shuffle(ks)
         if not total:
@@ -185,6 +195,8 @@ def gen_step(rng: random.Random, kind: str, schema: t.Dict[str, str], st: t.Dict
             n = rng.choice([0, 1, 2, 3, 4, 5, 7, 10, 12, BIG])
         else:
             n = rng.choice([0, BIG, BIG + 1])
+        if st.get("keep_rows") and rng.random() < 0.6:
+            n = rng.choice([BIG, BIG + 1])  # the block gets its LIMIT clause and the rows stay to tell what else happened to it
         # a truncating limit keeps the prefix of a total order: still deterministic for a following limit
         st["total"] = st.get("total", False)
         return {"k": "limit", "n": n}
@@ -194,6 +206,9 @@ def gen_step(rng: random.Random, kind: str, schema: t.Dict[str, str], st: t.Dict
         if rng.random() < 0.5 and len(sub) > 1:
             sub = rng.sample(sub, rng.randint(1, len(sub)))
         st["total"] = False
+        if st.get("keep_rows") and rng.random() < 0.5:
+            # a value the data already has: filling makes rows equal that were not (a DISTINCT before or after sees the difference)
+            return {"k": "fillna", "v": rng.choice([0, 1, 2]) if ty == "int" else rng.choice(["a", "b", ""]), "sub": sub}
         return {"k": "fillna", "v": 7 if ty == "int" else "zz", "sub": sub}
     if kind == "replace":
         ty = rng.choice(sorted(set(schema.values())))
@@ -257,13 +272,43 @@ def gen_step(rng: random.Random, kind: str, schema: t.Dict[str, str], st: t.Dict
     raise ValueError(kind)
 
 
-def gen_program(rng: random.Random, kinds: t.Sequence[str], focus: bool = False) -> t.Optional[dict]:
+def gen_table_nd(rng: random.Random, schema: t.Dict[str, str], max_rows: int = 6, p: float = 0.85) -> t.List[t.List[t.Any]]:
+    """a table with *near-duplicates*: for (most) columns, a copy of some row that differs from it in that column only — so
+    that de-duplicating before a projection and after it give different bags, and a step that reads the wrong version of
+    one column meets rows that agree everywhere else"""
+    rows = X.gen_table(rng, schema, max_rows=max_rows)
+    if rows:
+        for j, ty in enumerate(schema.values()):
+            if rng.random() < p:
+                r = list(rng.choice(rows))
+                r[j] = rng.choice([v for v in (X.INT_POOL if ty == "int" else X.STR_POOL) if v != r[j]])
+                rows.insert(rng.randrange(len(rows) + 1), r)
+    return rows
+
+
+def near_dup_cols(schema: t.Dict[str, str], rows: t.List[t.List[t.Any]]) -> t.List[str]:
+    """the columns c such that two rows differ in c and agree in every other column"""
+    names = list(schema)
+    out = []
+    for j, c in enumerate(names):
+        seen: t.Dict[str, t.Set[str]] = {}
+        for r in rows:
+            seen.setdefault(json.dumps(r[:j] + r[j + 1 :]), set()).add(json.dumps(r[j]))
+        if any(len(v) > 1 for v in seen.values()):
+            out.append(c)
+    return out
+
+
+def gen_program(rng: random.Random, kinds: t.Sequence[str], focus: bool = False, neardup: bool = False, keep_rows: bool = False) -> t.Optional[dict]:
+    """neardup / keep_rows are C01's own (other checks call this with the defaults and get the programs they always got)"""
     schema = {"x": "int", "y": "int", "s": "str"}
     if rng.random() < 0.3:
         schema = {"x": "int", "y": "int"}
     base_schema = dict(schema)
-    rows = X.gen_table(rng, schema, max_rows=rng.choice([6, 6, 13]))
-    st: t.Dict[str, t.Any] = {"total": False}
+    rows = gen_table_nd(rng, schema, max_rows=rng.choice([6, 6, 13])) if neardup else X.gen_table(rng, schema, max_rows=rng.choice([6, 6, 13]))
+    if keep_rows and not rows:
+        rows = gen_table_nd(rng, schema, max_rows=6) or [[1 if ty == "int" else "a" for ty in schema.values()]]
+    st: t.Dict[str, t.Any] = {"total": False, "nd": near_dup_cols(schema, rows) if neardup else [], "keep_rows": keep_rows}
     if focus:
         st["focus"] = rng.choice(["x", "y"])
     steps = []
@@ -383,6 +428,50 @@ def session():
     if _SESSION is None:
         _SESSION = vlib.fresh_duckdb_session()
     return _SESSION
+
+
+# scope hypotheses that name a defect of the engine (third party): the model and the specification agree on such programs,
+# so "the model predicts the implementation" cannot be asked; instead the engine itself must return the specification's
+# rows for the same statement when it runs single-threaded — sqlframe's statement is then right and the deviation is the
+# engine's parallel executor.  Anything else on such a program is still a violation.
+ENGINE_H = {"H_engineNestedUnionOverSort"}
+
+
+def engine_pattern(c: dict) -> bool:
+    """Python mirror of Lean `nestedUnionOverSort` (used only to keep the relational side streams off the engine defect)"""
+    n = 0
+    for s in c["steps"]:
+        wide = s["k"] == "unpivot" and len(s["vals"]) >= 2
+        if n == 0 and s["k"] == "orderBy":
+            n = 1
+        elif n == 1 and wide:
+            n = 2
+        elif n == 2 and wide:
+            return True
+    return False
+
+
+def run_impl_single(c: dict) -> dict:
+    """the same chain with the engine restricted to one thread"""
+    try:
+        conn = session()._conn
+        before = conn.execute("SELECT current_setting('threads')").fetchone()[0]
+        conn.execute("SET threads=1")
+    except Exception as e:  # noqa
+        return {"err": f"cannot restrict the engine to one thread: {type(e).__name__}: {str(e)[:120]}"}
+    try:
+        return run_impl(c)
+    finally:
+        conn.execute(f"SET threads={int(before)}")
+
+
+def isolated_map(fn: t.Callable[[t.Any], t.Any], items: t.List[t.Any]) -> t.List[t.Any]:
+    """fresh children while this process has not opened a DuckDB connection itself; inline once it has (forking then hangs)"""
+    if not items:
+        return []
+    if _SESSION is not None:
+        return [fn(x) for x in items]
+    return fresh_map(fn, items)
 
 
 def apply_step(df: t.Any, s: dict, F: t.Any) -> t.Any:
@@ -694,6 +783,30 @@ def has_risky_limit(c: dict) -> bool:
 # ------------------------------------------------------------------------------------------------
 
 
+SELECT_CLASS = [k for k in KINDS if k not in ("where", "orderBy", "limit")]
+
+
+def block_state_cases(rng: random.Random, thorough: bool) -> t.List[dict]:
+    """every method applied to every state of the open SELECT.  The state of a block is which of its clauses are filled; it is
+    reached by an ascending prefix [where]? [one SELECT-class step]? [orderBy]? [limit]? (any other order starts a new block).
+    Tables carry near-duplicates and half of the programs keep every step on one column, so that a clause landing in the wrong
+    block — or a projection folded into a block that already de-duplicates, sorts or cuts — changes the bag of rows."""
+    out = []
+    mids = [None] + (SELECT_CLASS if thorough else ["select", "withColumn", "distinct"])
+    for w in (False, True):
+        for mid in mids:
+            for o in (False, True):
+                for lim in (False, True):
+                    prefix = (["where"] if w else []) + ([mid] if mid else []) + (["orderBy"] if o else []) + (["limit"] if lim else [])
+                    for k in KINDS:
+                        for rep in range(3 if thorough else 2):
+                            c = gen_program(rng, prefix + [k], focus=(rep == 1), neardup=True, keep_rows=True)
+                            if c:
+                                c["origin"] = "block-state"
+                                out.append(c)
+    return out
+
+
 def cases_for(ctx: Ctx) -> t.List[dict]:
     cases: t.List[dict] = []
     corpus_dir = os.path.join(vlib.VERIF, "corpus", ID)
@@ -701,13 +814,15 @@ def cases_for(ctx: Ctx) -> t.List[dict]:
         for fn in sorted(os.listdir(corpus_dir)):
             if fn.endswith(".json"):
                 c = json.load(open(os.path.join(corpus_dir, fn)))
+                if "scenario" in c:
+                    continue  # several chains in one interpreter: scenarios_for
                 c["origin"] = "corpus:" + fn
                 cases.append(c)
     depth = 4 if ctx.thorough else 2  # the property names length 4 for the exhaustive part
     for L in range(1, depth + 1):
         for kinds in itertools.product(KINDS, repeat=L):
             for _ in range(4 if L == 1 else (2 if L == 2 else 1)):
-                c = gen_program(ctx.rng, kinds)
+                c = gen_program(ctx.rng, kinds, neardup=ctx.rng.random() < 0.4)
                 if c:
                     c["origin"] = f"exhaustive-kinds-L{L}"
                     cases.append(c)
@@ -716,10 +831,11 @@ def cases_for(ctx: Ctx) -> t.List[dict]:
     fk = KINDS if ctx.thorough else ["where", "select", "withColumn", "orderBy", "limit", "fillna", "replace", "distinct"]
     for kinds in itertools.product(fk, repeat=3):
         for _ in range(2 if ctx.thorough else 1):
-            c = gen_program(ctx.rng, kinds, focus=True)
+            c = gen_program(ctx.rng, kinds, focus=True, neardup=ctx.rng.random() < 0.4)
             if c:
                 c["origin"] = "focused-kinds-L3"
                 cases.append(c)
+    cases += block_state_cases(ctx.rng, ctx.thorough)
     # targeted family: consecutive limits (merged inside one block) for every pair from a grid, on a 13-row table
     grid = [0, 1, 2, 5, 7, 10, 12, 50]
     rows13 = [[i % 7, (i * 5) % 11] for i in range(13)]
@@ -732,7 +848,7 @@ def cases_for(ctx: Ctx) -> t.List[dict]:
     for _ in range(n_rand):
         L = ctx.rng.randint(3, 10)
         kinds = [ctx.rng.choice(KINDS) for _ in range(L)]
-        c = gen_program(ctx.rng, kinds)
+        c = gen_program(ctx.rng, kinds, neardup=ctx.rng.random() < 0.4)
         if c:
             c["origin"] = "random"
             cases.append(c)
@@ -751,7 +867,7 @@ def norm_shape(sh: t.Any) -> t.Any:
 
 def evaluate(cases: t.List[dict], workers: int = 0) -> t.List[dict]:
     outs = vlib.run_driver("C01", [case_to_lean(i, c) for i, c in enumerate(cases)])
-    impls = vlib.parallel_map(run_impl, cases, workers)
+    impls = isolated_map(run_impl, cases) if workers == -1 else vlib.parallel_map(run_impl, cases, workers)
     res = []
     for c, o, impl in zip(cases, outs, impls):
         if "err" in o:
@@ -769,9 +885,27 @@ def evaluate(cases: t.List[dict], workers: int = 0) -> t.List[dict]:
                 "impl_eq_spec": same(impl, o["spec"], ordered),
                 "model_shape": o.get("shape"),
                 "shape_eq": ("shape" not in o) or impl.get("shape") is None or "err" in impl or norm_shape(impl.get("shape")) == norm_shape(o["shape"]),
+                "engine_only": False,
             }
         )
+    # a mismatch on a program in an engine scope: is it the engine's (right statement, wrong parallel execution)?
+    sus = [r for r in res if not r["impl_eq_spec"] and any(h in ENGINE_H for h in r["scope"])]
+    for r, single in zip(sus, isolated_map(run_impl_single, [r["case"] for r in sus])):
+        r["impl_single_thread"] = single
+        r["engine_only"] = same(single, r["spec"], r["ordered"]) and same(r["model"], r["spec"], r["ordered"]) and r["shape_eq"]
     return res
+
+
+def is_known(r: dict, known: t.Dict[str, dict]) -> bool:
+    """a failure is a known finding iff every violated H_ hypothesis is listed open and either the model predicts the implementation
+    (a defect of sqlframe that the model reproduces) or the hypotheses are engine scopes and the engine, single-threaded, returns
+    the specification's rows for the same statement"""
+    hs = [h for h in r["scope"] if h.startswith("H_")]  # D_* entries mark theorem coverage, not defects
+    if not hs or not all(h in known for h in hs):
+        return False
+    if all(h in ENGINE_H for h in hs):
+        return bool(r.get("engine_only"))
+    return r["impl_eq_model"]
 
 
 # ------------------------------------------------------------------------------------------------
@@ -902,11 +1036,392 @@ def eval_exprsort(cases: t.List[dict], workers: int = 0) -> t.List[dict]:
              "guard": im.get("guard"), "guard_model": gmodel.get(i)} for i, (c, o, im) in enumerate(zip(cases, outs, impls))]
 
 
+# ------------------------------------------------------------------------------------------------
+# scenarios: several chains over ONE source, one after another in ONE interpreter.  The property quantifies over chains;
+# a chain's answer must not depend on which other chains were built before it (C01_history_independent).  The main stream
+# cannot see such a dependence: every case there has its own data, hence its own CTE names and its own expressions.
+# Here the chains of a scenario share a prefix (the same source, literally the same preceding steps), every kind is
+# applied to that prefix in two passes (so every ordered pair "a ran before b" occurs), and each chain's rows are
+# compared with the specification of that chain alone.  A scenario runs in a freshly forked process, so a failing one
+# can be replayed on its own.
+# ------------------------------------------------------------------------------------------------
+
+SCENARIO_MODES = ["shared", "rebuilt", "recreated"]
+
+
+def gen_scenario(rng: random.Random, prefix_kinds: t.Sequence[str], mode: str, tails: int = 0) -> t.Optional[dict]:
+    schema0 = {"x": "int", "y": "int", "s": "str"} if rng.random() < 0.7 else {"x": "int", "y": "int"}
+    rows = gen_table_nd(rng, schema0, max_rows=rng.choice([6, 6, 13]))
+    if not rows:
+        rows = [[1 if ty == "int" else "a" for ty in schema0.values()]]
+    schema = dict(schema0)
+    st: t.Dict[str, t.Any] = {"total": False, "nd": near_dup_cols(schema0, rows), "keep_rows": True}
+    prefix = []
+    for i, k in enumerate(prefix_kinds):
+        s = gen_step(rng, k, schema, st, any(kk == "limit" for kk in prefix_kinds[i + 1 : i + 2]))
+        if s is None:
+            return None
+        prefix.append(s)
+    chains = []
+    for _ in range(2):
+        ks = list(KINDS)
+        rng.shuffle(ks)
+        for k in ks:
+            sch, st2 = dict(schema), dict(st)
+            s = gen_step(rng, k, sch, st2, False)
+            if s is None:
+                continue
+            tail = [s]
+            for _ in range(tails if rng.random() < 0.5 else 0):  # a further step: the interference may sit one level deeper
+                s2 = gen_step(rng, rng.choice(KINDS), sch, st2, False)
+                if s2 is not None:
+                    tail.append(s2)
+            chains.append(prefix + tail)
+    sc = {"schema": schema0, "rows": rows, "npre": len(prefix), "chains": chains, "mode": mode}
+    sc["chains"] = [ch for ch in chains if chain_ok(sc, ch)]
+    return sc if sc["chains"] else None
+
+
+def chain_case(sc: dict, ch: t.List[dict]) -> dict:
+    return {"schema": sc["schema"], "rows": sc["rows"], "steps": ch}
+
+
+def chain_ok(sc: dict, ch: t.List[dict]) -> bool:
+    c = chain_case(sc, ch)
+    return bool(ch) and valid(c) and not has_risky_limit(c)
+
+
+def show_scenario(sc: dict) -> str:
+    return f"df{list(sc['schema'])}{sc['rows']}, one interpreter, mode={sc['mode']} (prefix = first {sc['npre']} steps): " + " ;; ".join(
+        "df." + ".".join(show_step(s) for s in ch) for ch in sc["chains"])
+
+
+def run_scenario(sc: dict) -> t.List[dict]:
+    """every chain of the scenario, in order, in this process; per chain the columns and rows it returns"""
+    from sqlframe.duckdb import functions as F
+
+    out = []
+    try:
+        sess = vlib.fresh_duckdb_session()
+        base = X.make_df(sess, sc["schema"], sc["rows"])
+        npre = sc["npre"]
+        pre = None
+    except Exception as e:  # noqa
+        return [{"err": f"{type(e).__name__}: {str(e)[:200]}"} for _ in sc["chains"]]
+    for ch in sc["chains"]:
+        try:
+            if sc["mode"] == "shared":
+                # one DataFrame object for the common prefix, every chain derived from it
+                if pre is None:
+                    pre = base
+                    for s in ch[:npre]:
+                        pre = apply_step(pre, s, F)
+                df = pre
+                rest = ch[npre:]
+            elif sc["mode"] == "recreated":
+                df, rest = X.make_df(sess, sc["schema"], sc["rows"]), ch
+            else:
+                df, rest = base, ch
+            for s in rest:
+                df = apply_step(df, s, F)
+            out.append({"cols": list(df.columns), "rows": [[plain(v) for v in r] for r in df.collect()]})
+        except Exception as e:  # noqa
+            out.append({"err": f"{type(e).__name__}: {str(e)[:200]}"})
+    return out
+
+
+def preload() -> None:
+    """import (never run) everything a chain needs, so that forked children start with the modules loaded: nothing of
+    sqlframe has been executed in this process, no DuckDB connection exists"""
+    import importlib
+
+    for m in ("numpy", "pandas", "pyarrow", "duckdb", "sqlglot.dialects.duckdb", "sqlglot.dialects.spark", "sqlframe.duckdb",
+              "sqlframe.duckdb.functions", "sqlframe.base.functions", "sqlframe.base.window"):
+        try:
+            importlib.import_module(m)
+        except Exception:  # noqa: an optional module: the child imports what it needs
+            pass
+
+
+def _fresh_call(args):
+    fn, item = args
+    return fn(item)
+
+
+def fresh_map(fn: t.Callable[[t.Any], t.Any], items: t.List[t.Any]) -> t.List[t.Any]:
+    """order-preserving map, every item in its own freshly forked process (no state of an earlier item, and none of this
+    process beyond the imported modules: the parent must not have run sqlframe itself)"""
+    if not items:
+        return []
+    import multiprocessing as mp
+
+    preload()
+
+    workers = max(1, min(int(os.environ.get("VERIF_WORKERS", "8")), os.cpu_count() or 1, len(items)))
+    with mp.get_context("fork").Pool(workers, maxtasksperchild=1) as pool:
+        return pool.map(_fresh_call, [(fn, x) for x in items], chunksize=1)
+
+
+def eval_scenarios(scs: t.List[dict], known: t.Dict[str, dict]) -> t.List[dict]:
+    hist = vlib.run_driver("C01Hist", [{"case": i, "table": X.table_to_lean(list(sc["schema"]), sc["rows"]), "chains": [[step_to_lean(s) for s in ch] for ch in sc["chains"]]}
+                                       for i, sc in enumerate(scs)])
+    impls = fresh_map(run_scenario, scs)
+    res = []
+    for sc, h, impl_all in zip(scs, hist, impls):
+        if "err" in h:
+            raise RuntimeError(f"driver rejected a scenario: {h}")
+        r: t.Dict[str, t.Any] = {"scenario": sc, "chains": [], "failing": [], "model_diff": []}
+        for j, ch in enumerate(sc["chains"]):
+            impl = impl_all[j] if j < len(impl_all) else {"err": "no result"}
+            ordered = order_checked(chain_case(sc, ch))
+            ok_spec = same(impl, h["spec"][j], ordered)
+            ok_model = same(impl, h["model"][j], ordered)
+            sc_h = [x for x in h["scope"][j] if x.startswith("H_")]
+            excused = (not ok_spec) and bool(sc_h) and all(x in known for x in sc_h) and ok_model
+            r["chains"].append({"impl": impl, "spec": h["spec"][j], "model_in_history": h["model"][j], "ok": ok_spec, "ok_model": ok_model, "excused": excused, "scope": h["scope"][j]})
+            if not ok_spec and not excused:
+                r["failing"].append(j)
+            if not ok_model:
+                r["model_diff"].append(j)
+        res.append(r)
+    return res
+
+
+def classify_scenario_failure(sc: dict, known: t.Dict[str, dict]) -> t.Tuple[str, dict]:
+    """('alone', case) when the failing chain also fails with nothing before it; else ('history', the shrunk scenario)"""
+    r0 = eval_scenarios([sc], known)[0]
+    if r0["failing"]:
+        j = r0["failing"][0]
+        alone = dict(sc, chains=[sc["chains"][j]])
+        if eval_scenarios([alone], known)[0]["failing"]:
+            return "alone", chain_case(sc, sc["chains"][j])
+    return "history", shrink_scenario(sc, known)
+
+
+def shrink_scenario(sc: dict, known: t.Dict[str, dict], rounds: int = 10) -> dict:
+    """first the chains (the failing one alone, else with one earlier chain), then greedily: steps of the common prefix, trailing
+    steps, rows (halves first) — while some chain still fails.  One batch of candidates per round, each in a fresh process."""
+    best = sc
+    r0 = eval_scenarios([best], known)[0]
+    if not r0["failing"]:
+        return best
+    j = r0["failing"][0]
+    chains = best["chains"]
+    cands = [dict(best, chains=[chains[j]])] + [dict(best, chains=[chains[i], chains[j]]) for i in range(j)] + [dict(best, chains=chains[: j + 1])]
+    got = next((r["scenario"] for r in eval_scenarios(cands, known) if r["failing"]), None)
+    if got is not None:
+        best = got
+    for _ in range(rounds):
+        cands = []
+        n = len(best["chains"])
+        if n > 1:
+            cands += [dict(best, chains=best["chains"][:i] + best["chains"][i + 1 :]) for i in range(n)]
+        for p in range(best["npre"]):
+            cands.append(dict(best, npre=best["npre"] - 1, chains=[ch[:p] + ch[p + 1 :] for ch in best["chains"]]))
+        for i, ch in enumerate(best["chains"]):
+            if len(ch) > best["npre"] + 1:
+                cands.append(dict(best, chains=best["chains"][:i] + [ch[:-1]] + best["chains"][i + 1 :]))
+        nr = len(best["rows"])
+        if nr > 3:
+            cands += [dict(best, rows=best["rows"][: nr // 2]), dict(best, rows=best["rows"][nr // 2 :])]
+        cands += [dict(best, rows=best["rows"][:i] + best["rows"][i + 1 :]) for i in range(nr) if nr > 1]
+        cands = [x for x in cands if x["chains"] and all(chain_ok(x, ch) for ch in x["chains"])]
+        if not cands:
+            break
+        nxt = next((r["scenario"] for r in eval_scenarios(cands, known) if r["failing"]), None)
+        if nxt is None:
+            break
+        best = nxt
+    return best
+
+
+def scenarios_for(ctx: Ctx) -> t.List[dict]:
+    out = []
+    corpus_dir = os.path.join(vlib.VERIF, "corpus", ID)
+    if os.path.isdir(corpus_dir):
+        for fn in sorted(os.listdir(corpus_dir)):
+            if fn.endswith(".json"):
+                c = json.load(open(os.path.join(corpus_dir, fn)))
+                if "scenario" in c and all(chain_ok(c["scenario"], ch) for ch in c["scenario"]["chains"]):
+                    out.append(c["scenario"])
+    singles = KINDS if ctx.thorough else ["where", "select", "withColumn", "distinct", "orderBy"]
+    prefixes: t.List[t.List[str]] = [[]] + [[k] for k in singles]
+    if ctx.thorough:
+        prefixes += [[a, b] for a in KINDS for b in KINDS]
+    for n, pk in enumerate(prefixes):
+        # quick: one DataFrame object shared by all chains, and alternately the prefix rebuilt / the source re-created per chain
+        modes = (SCENARIO_MODES if ctx.thorough else ["shared", SCENARIO_MODES[1 + n % 2]]) if len(pk) < 2 else [ctx.rng.choice(SCENARIO_MODES)]
+        for mode in modes:
+            for _ in range(2 if ctx.thorough and len(pk) < 2 else 1):
+                sc = gen_scenario(ctx.rng, pk, mode, tails=1 if ctx.thorough else 0)
+                if sc:
+                    out.append(sc)
+    return out
+
+
+# ------------------------------------------------------------------------------------------------
+# the regenerated Gen.C01Bodies held against the running code: which DataFrame methods each body really runs (and how it
+# enters them), how often it freezes the block itself, whether the column-list helper hands out one shared list, and who
+# writes into the list it handed out
+# ------------------------------------------------------------------------------------------------
+
+PROBE_CALLS = {
+    "where": lambda d, F: d.where(F.col("x") > F.lit(0)),
+    "select": lambda d, F: d.select(F.col("y"), (F.col("x") + F.lit(1)).alias("x")),
+    "withColumn": lambda d, F: d.withColumn("z", F.col("x") + F.lit(1)),
+    "withColumns": lambda d, F: d.withColumns({"z": F.col("x") + F.lit(1), "x": F.col("y")}),
+    "withColumnRenamed": lambda d, F: d.withColumnRenamed("x", "w"),
+    "drop": lambda d, F: d.drop("y"),
+    "distinct": lambda d, F: d.distinct(),
+    "orderBy": lambda d, F: d.orderBy("x", F.col("y").desc()),
+    "limit": lambda d, F: d.limit(3),
+    "fillna": lambda d, F: d.fillna(7, subset=["x"]),
+    "replace": lambda d, F: d.replace(1, 2, subset=["x"]),
+    "toDF": lambda d, F: d.toDF("a", "b", "c"),
+    "dropna": lambda d, F: d.dropna(how="any", subset=["x", "y"]),
+    "unpivot": lambda d, F: d.unpivot(["s"], ["x", "y"], "var", "val"),
+}
+
+
+def probe_bodies(_: t.Any) -> dict:
+    """runs in a freshly forked process (it replaces a class attribute while it looks)"""
+    import sys
+    import types
+
+    from sqlframe.base.dataframe import BaseDataFrame
+    from sqlframe.duckdb import functions as F
+
+    try:
+        sess = vlib.fresh_duckdb_session()
+        base = X.make_df(sess, {"x": "int", "y": "int", "s": "str"}, [[1, None, "a"], [2, 3, None], [1, None, "a"]])
+        receivers = {"after select": base.select("x", "y", "s"), "after where": base.where(F.col("x") > F.lit(0)), "after orderBy+limit": base.orderBy("x").limit(5)}
+        raw, wrapper_code = {}, None
+        for name, attr in vars(BaseDataFrame).items():
+            fn = getattr(attr, "__wrapped__", None)
+            if isinstance(attr, types.FunctionType) and isinstance(fn, types.FunctionType) and attr.__code__.co_name == "wrapper":
+                raw[fn.__code__] = fn.__name__
+                wrapper_code = attr.__code__
+        freeze = BaseDataFrame._convert_leaf_to_cte.__code__
+        copy_code = BaseDataFrame.copy.__code__
+        out: t.Dict[str, t.Any] = {"bodies": {}, "wraps": {}, "mutated": {}, "direct": {}, "errors": []}
+
+        # (1) the column-list helper: one shared list per equal expression, or a new list per call?
+        helper = BaseDataFrame.__dict__["_get_outer_select_columns"]
+        e1 = receivers["after select"].expression
+        r1 = BaseDataFrame._get_outer_select_columns(e1)
+        r2 = BaseDataFrame._get_outer_select_columns(e1.copy())
+        out["memoised"] = r1 is r2
+
+        rec: t.List[t.Tuple[list, list]] = []
+        inner_f = helper.__func__ if isinstance(helper, (classmethod, staticmethod)) else helper
+
+        def proxy(cls, item):
+            r = inner_f(cls, item)
+            rec.append((r, list(r)))
+            return r
+
+        for m, call in PROBE_CALLS.items():
+            seen_inner, seen_wraps, seen_mut, seen_direct = set(), set(), set(), set()
+            for rname, recv in receivers.items():
+                stack: t.List[dict] = []
+                roots: t.List[dict] = []
+                direct: t.Set[str] = set()
+
+                def prof(frame, event, arg):
+                    code = frame.f_code
+                    if event == "call":
+                        node = None
+                        if code is copy_code and frame.f_back is not None and frame.f_back.f_code in raw and "expression" in (frame.f_locals.get("kwargs") or {}):
+                            direct.add(raw[frame.f_back.f_code])  # the body itself hands copy() a new expression
+                        if code is wrapper_code:
+                            node = {"k": "wrapper", "n": getattr(frame.f_locals.get("func"), "__name__", "?"), "c": [], "code": code}
+                        elif code in raw:
+                            node = {"k": "raw", "n": raw[code], "c": [], "code": code}
+                        elif code is freeze:
+                            node = {"k": "freeze", "n": "_convert_leaf_to_cte", "c": [], "code": code}
+                        if node is not None:
+                            (stack[-1]["c"] if stack else roots).append(node)
+                            stack.append(node)
+                    elif event == "return" and stack and stack[-1]["code"] is code:
+                        stack.pop()
+
+                rec.clear()
+                BaseDataFrame._get_outer_select_columns = classmethod(proxy)
+                sys.setprofile(prof)
+                try:
+                    call(recv, F)
+                except Exception as e:  # noqa
+                    out["errors"].append(f"{m} {rname}: {type(e).__name__}: {str(e)[:120]}")
+                finally:
+                    sys.setprofile(None)
+                    BaseDataFrame._get_outer_select_columns = helper
+                seen_mut.add(any(len(r) != len(snap) or any(a is not b for a, b in zip(r, snap)) for r, snap in rec))
+
+                def body_of(nodes, name):
+                    for nd in nodes:
+                        if nd["k"] == "raw" and nd["n"] == name:
+                            return nd
+                        got = body_of(nd["c"], name)
+                        if got is not None:
+                            return got
+                    return None
+
+                b = body_of(roots, m)
+                if b is None:
+                    out["errors"].append(f"{m} {rname}: its body was never entered")
+                    continue
+                inner = []
+                for ch in b["c"]:
+                    if ch["k"] == "wrapper":
+                        inner.append(["decorated", ch["n"]])
+                    elif ch["k"] == "raw":
+                        inner.append(["undecorated", ch["n"]])
+                seen_inner.add(json.dumps(inner))
+                seen_wraps.add(sum(1 for ch in b["c"] if ch["k"] == "freeze"))
+                seen_direct.add(m in direct)
+            out["direct"][m] = sorted(seen_direct)
+            out["bodies"][m] = sorted(seen_inner)
+            out["wraps"][m] = sorted(seen_wraps)
+            out["mutated"][m] = sorted(seen_mut)
+        return out
+    except Exception as e:  # noqa
+        return {"err": f"{type(e).__name__}: {str(e)[:300]}"}
+
+
+def check_generated_bodies(ctx: Ctx) -> None:
+    gen = vlib.run_driver("C01Hist", [{"case": 0, "table": {"cols": ["x"], "rows": []}, "chains": []}])[0]
+    live = fresh_map(probe_bodies, [None])[0]
+    ctx.cov["bodies_probe"] = {"generated": {k: gen.get(k) for k in ("bodies", "wraps", "direct", "memoised", "mutatedBy", "fresh")}, "running": live}
+    if "err" in live:
+        ctx.broken.append(f"Gen.C01Bodies could not be held against the running code: {live['err']}")
+        return
+    bad = []
+    reach = lambda m, seen=(): {m} | set().union(*[reach(c[1], seen + (m,)) for c in gen["bodies"].get(m, []) if c[1] not in seen]) if gen["bodies"].get(m) else {m}  # noqa: E731
+    for m in PROBE_CALLS:
+        want = json.dumps(gen["bodies"].get(m))
+        if live["bodies"].get(m) != [want]:
+            bad.append(f"{m} runs {live['bodies'].get(m)} but was regenerated as {want}")
+        if m != "orderBy" and live["wraps"].get(m) != [gen["wraps"].get(m)]:
+            bad.append(f"{m} freezes the block {live['wraps'].get(m)} times itself but was regenerated with {gen['wraps'].get(m)}")
+        if live["direct"].get(m) != [gen["direct"].get(m)]:
+            bad.append(f"{m} hands copy() a new expression itself: {live['direct'].get(m)}, regenerated: {gen['direct'].get(m)}")
+        want_mut = bool(reach(m) & set(gen["mutatedBy"]))
+        if live["mutated"].get(m) != [want_mut]:
+            bad.append(f"{m} writes into the list _get_outer_select_columns returned: {live['mutated'].get(m)}, regenerated: {want_mut}")
+    if live["memoised"] != gen["memoised"]:
+        bad.append(f"_get_outer_select_columns hands out one shared list per equal expression: {live['memoised']}, regenerated: {gen['memoised']}")
+    if gen["fresh"] is not True:
+        bad.append("outerColsFresh is not true")
+    bad += live["errors"]
+    if bad:
+        ctx.broken.append("Gen.C01Bodies differs from the running code: " + "; ".join(bad)[:900])
+
+
 def dropdup_case(rng: random.Random) -> t.Optional[dict]:
     """dropDuplicates(subset) keeps one (unspecified) representative per key: checked relationally"""
     kinds = [rng.choice(KINDS) for _ in range(rng.randint(0, 3))]
     c = gen_program(rng, kinds)
-    if not c or not valid(c) or has_risky_limit(c):
+    if not c or not valid(c) or has_risky_limit(c) or engine_pattern(c):
         return None
     import c11
 
@@ -948,8 +1463,56 @@ def run(ctx: Ctx) -> None:
     vlib.prove(ctx, MODULES, GEN, idx["theorems"], SOURCES)
     known = {e["id"]: e for e in vlib.known_findings(ID)}
 
+    # everything that needs a process in which sqlframe has not run yet comes first: the probe of the regenerated body
+    # compositions, and the scenarios (several chains in one interpreter), each in a freshly forked child
+    import time as _time
+
+    phase: t.Dict[str, float] = {"prove": round(ctx.elapsed(), 1)}
+    t0 = _time.time()
+    preload()
+    check_generated_bodies(ctx)
+    phase["probe"] = round(_time.time() - t0, 1)
+    t0 = _time.time()
+    scs = scenarios_for(ctx)
+    sres = eval_scenarios(scs, known)
+    phase["scenarios"] = round(_time.time() - t0, 1)
+    s_model = [r for r in sres if r["model_diff"]]
+    for r in sres:
+        for ch in r["chains"]:
+            if ch["excused"]:  # the model predicts the implementation and every violated hypothesis is a listed open finding
+                for h in [x for x in ch["scope"] if x.startswith("H_")]:
+                    vlib.report_known(ctx, known[h], known[h]["summary"])
+    s_alone: t.List[dict] = []  # chains of a scenario that fail on their own: ordinary failing inputs
+    s_hist: t.List[dict] = []  # chains that fail only after other chains: shrunk scenarios
+    for r in [r for r in sres if r["failing"]][:3]:
+        kind, what = classify_scenario_failure(r["scenario"], known)
+        if kind == "alone":
+            s_alone.append(what)
+        else:
+            # evaluated here, while this process has still not run sqlframe itself (fresh children are forked from it)
+            s_hist.append({"scenario": what, "result": eval_scenarios([what], known)[0]})
+    if s_model:
+        r0 = s_model[0]
+        j = r0["model_diff"][0]
+        ctx.broken.append(f"correspondence stream H (chains run one after another in one interpreter vs runScenarioGen): {len(s_model)} of {len(sres)} scenarios differ, "
+                          f"e.g. chain {j} of {show_scenario(r0['scenario'])[:300]}: implementation {json.dumps(r0['chains'][j]['impl'])[:200]} vs model {json.dumps(r0['chains'][j]['model_in_history'])[:200]}")
+
+    # known findings: replay the recorded witnesses on the real code (fresh children; printed only while they still fail)
+    kw = [(h, e) for h, e in known.items() if e.get("witness")]
+    if kw:
+        for (h, e), r in zip(kw, evaluate([e["witness"] for _, e in kw], workers=-1)):
+            if not r["impl_eq_spec"] and is_known(r, known):
+                vlib.report_known(ctx, e, e["summary"])
+            elif not r["impl_eq_spec"]:
+                ctx.broken.append(f"the witness of the known finding {h} fails in a way the finding does not describe (model predicts the implementation: {r['impl_eq_model']}; engine alone: {r['engine_only']})")
+
     cases = cases_for(ctx)
-    res = evaluate(cases)
+    for c in s_alone:
+        c["origin"] = "scenario-chain"
+    t0 = _time.time()
+    res = evaluate(s_alone + cases)
+    phase["chains"] = round(_time.time() - t0, 1)
+    ctx.cov["phase_s"] = phase
 
     kinds_hist: t.Dict[str, int] = {}
     lens: t.Dict[int, int] = {}
@@ -966,26 +1529,17 @@ def run(ctx: Ctx) -> None:
         if "err" not in r["impl"] and r["impl"]["rows"] and r["impl"]["rows"] != [[plain(v) for v in row] for row in c["rows"]]:
             nontrivial.add(vlib.digest([c["steps"], c["rows"]]))
 
-    model_mismatch = [r for r in res if not r["impl_eq_model"]]
+    model_mismatch = [r for r in res if not r["impl_eq_model"] and not (r["engine_only"] and is_known(r, known))]
     spec_mismatch = [r for r in res if not r["impl_eq_spec"]]
 
     # classify implementation-vs-specification failures
     new_viol = []
     for r in spec_mismatch:
-        sc = [h for h in r["scope"] if h.startswith("H_")]  # D_* entries mark theorem coverage, not defects
-        if sc and all(h in known for h in sc) and r["impl_eq_model"]:
-            for h in sc:
+        if is_known(r, known):
+            for h in [h for h in r["scope"] if h.startswith("H_")]:
                 vlib.report_known(ctx, known[h], known[h]["summary"])
         else:
             new_viol.append(r)
-
-    # known findings: replay the recorded witnesses on the real code
-    for h, e in known.items():
-        w = e.get("witness")
-        if w:
-            r = evaluate([w], workers=1)[0]
-            if not r["impl_eq_spec"]:
-                vlib.report_known(ctx, e, e["summary"])
 
     # dropDuplicates(subset): relational specification (one representative per key, each an input row)
     dd = [x for x in (dropdup_case(ctx.rng) for _ in range(400 if ctx.thorough else 40)) if x]
@@ -1025,7 +1579,7 @@ def run(ctx: Ctx) -> None:
 
     reported = 0
     for r in new_viol[:3]:
-        c = shrink(r["case"], lambda rr: (not rr["impl_eq_spec"]) and not (rr["scope"] and all(h in known for h in rr["scope"]) and rr["impl_eq_model"]))
+        c = shrink(r["case"], lambda rr: (not rr["impl_eq_spec"]) and not is_known(rr, known))
         rr = evaluate([c], workers=1)[0]
         vlib.report_violation(
             ctx,
@@ -1037,6 +1591,20 @@ def run(ctx: Ctx) -> None:
                 "specification": rr["spec"],
                 "model": rr["model"],
                 "violated_scope_hypotheses": rr["scope"],
+                "broken": ctx.broken,
+            },
+        )
+        reported += 1
+    for sh in s_hist[: max(0, 3 - reported)]:
+        sc, rr = sh["scenario"], sh["result"]
+        vlib.report_violation(
+            ctx,
+            {
+                "kind": "the result of a chain depends on the chains built before it in the same interpreter (each chain is compared with the sequential PySpark specification of that chain alone)",
+                "program": show_scenario(sc),
+                "scenario": sc,
+                "failing_chains": rr["failing"],
+                "chains": [{"program": "df." + ".".join(show_step(x) for x in ch), **res_j} for ch, res_j in zip(sc["chains"], rr["chains"])],
                 "broken": ctx.broken,
             },
         )
@@ -1087,6 +1655,11 @@ def run(ctx: Ctx) -> None:
             "out_of_scope_cases": sum(1 for r in res if r["scope"]),
             "order_determined_cases": n_ordered,
             "implementation_errors": n_err,
+            "scenarios": {"scenarios": len(sres), "chains": sum(len(r["chains"]) for r in sres), "chains_agreeing_with_spec": sum(sum(1 for c in r["chains"] if c["ok"]) for r in sres),
+                          "chains_agreeing_with_model_in_history": sum(sum(1 for c in r["chains"] if c["ok_model"]) for r in sres),
+                          "modes": {m: sum(1 for r in sres if r["scenario"]["mode"] == m) for m in SCENARIO_MODES},
+                          "rule": "per prefix (none, one step of a kind; thorough: every kind pair) and sharing mode, every kind applied to the same prefix in two passes, all in one freshly forked interpreter"},
+            "origin_histogram": {o: sum(1 for r in res if r["case"].get("origin", "").split(":")[0] == o) for o in sorted({r["case"].get("origin", "").split(":")[0] for r in res})},
             "dropDuplicates_subset_relational_cases": len(dd),
             "expression_sort_key_cases": len(es_res),
             "op_kind_histogram": kinds_hist,
@@ -1102,6 +1675,13 @@ def run(ctx: Ctx) -> None:
 
 
 def replay(ctx: Ctx, rp: dict) -> None:
+    if rp.get("scenario"):
+        sc = rp["scenario"]
+        r = eval_scenarios([sc], {e["id"]: e for e in vlib.known_findings(ID)})[0]
+        print(json.dumps({"program": show_scenario(sc), "failing_chains": r["failing"], "chains": r["chains"]}, indent=1))
+        if r["failing"]:
+            vlib.report_violation(ctx, dict(rp, failing_chains=r["failing"], chains=r["chains"]))
+        return
     c = rp.get("case")
     if not c:
         print("replay names a broken obligation, not an input:", rp.get("broken"))
